@@ -13,6 +13,7 @@ import (
 	"runtime"
 	"sort"
 	"sync"
+	"sync/atomic"
 	"time"
 
 	"github.com/yandex/pandora/core"
@@ -545,6 +546,50 @@ func head(xs []int64, n int) []int64 {
 	return xs
 }
 
+// lazyStart: the engine never calls Start on a pool's shared profile; it starts at its first
+// use, and with several instances the first uses overlap. Whatever the overlap, every operation
+// must lie inside [start, start+duration] where start is somewhere inside the first calls.
+func lazyStart(res *vkit.Result, p Profile, callers, trials int) {
+	c := map[string]any{"profile": p, "concurrent_first_callers": callers}
+	d := time.Duration(p.Duration)
+	for trial := 0; trial < trials; trial++ {
+		s, err := build(p)
+		if err != nil {
+			res.Inconclusive(true, "lazyStart: %v", err)
+			return
+		}
+		times := make([]time.Time, callers)
+		oks := make([]bool, callers)
+		var ready atomic.Int32
+		var wg sync.WaitGroup
+		before := time.Now()
+		for g := 0; g < callers; g++ {
+			wg.Add(1)
+			go func(g int) {
+				defer wg.Done()
+				ready.Add(1)
+				for ready.Load() < int32(callers) {
+				}
+				times[g], oks[g] = s.Next()
+			}(g)
+		}
+		wg.Wait()
+		after := time.Now()
+		for g := range times {
+			if !oks[g] {
+				continue
+			}
+			if times[g].Before(before) || times[g].After(after.Add(d)) {
+				res.Violate("C01/"+p.Kind+"/lazy-start/range", fmt.Sprintf("%d callers made the first Next calls of an unstarted profile between %s and %s; one operation is scheduled at %s, outside [start, start+%s]", callers, before.Format("15:04:05.000000"), after.Format("15:04:05.000000"), times[g].Format("2006-01-02 15:04:05.000000"), d), c)
+				res.Eval(vkit.JSON(c), true)
+				return
+			}
+		}
+		res.Count("lazy_start_trials", 1)
+	}
+	res.Eval(vkit.JSON(c), true)
+}
+
 func main() {
 	vkit.Fs()
 	res := vkit.NewResult("const/line/step/once profiles generated from a rate grid ∪ random rates and a duration grid ∪ random ms/ns-granular durations, built directly and through the config plugin path, drained completely; distinct = distinct parameter tuples; non-trivial = at least 2 tokens emitted")
@@ -579,6 +624,15 @@ func main() {
 		for _, callers := range []int{2, 4, 8} {
 			sharedStep(res, p, callers, vkit.N(700, 20000))
 		}
+	}
+	for _, p := range []Profile{
+		{Kind: "const", Ops: 1000, Duration: 1e9},
+		{Kind: "line", From: 10, To: 1000, Duration: 1e9},
+		{Kind: "once", Times: 100},
+		{Kind: "step", From: 100, To: 300, Step: 100, Duration: 5e8},
+	} {
+		lazyStart(res, p, 8, vkit.N(1500, 40000))
+		lazyStart(res, p, 2, vkit.N(500, 10000))
 	}
 	if res.Counter("profiles_fractional_seconds") < 10 || res.Counter("profiles_line") < 10 {
 		res.Inconclusive(true, "too few fractional-second or line profiles judged")
